@@ -544,7 +544,9 @@ func runC15(s c15Scen, c *ev.Case) *ev.Violation {
 	open := 0
 	var openID string
 	for _, cl := range all {
-		if !cl.WaitClosed(2 * time.Second) {
+		// the client has to read whatever was still in the pipe before it sees the end of the stream (a flooded
+		// connection holds about a megabyte; on an overloaded machine that took more than 2 s once)
+		if !cl.WaitClosed(10 * time.Second) {
 			open++
 			openID = cl.ID
 		}
@@ -559,7 +561,7 @@ func runC15(s c15Scen, c *ev.Case) *ev.Violation {
 		if (openID == "idle" || openID == "badauth") && ev.KF(kf) {
 			c.Excluded(kf)
 		} else {
-			return ev.Violf("C15.connection-open-after-stop", "%d connection(s) still open 2 s after Stop returned (e.g. %q)", open, openID).With("kind", openID)
+			return ev.Violf("C15.connection-open-after-stop", "%d connection(s) still open 10 s after Stop returned (e.g. %q)", open, openID).With("kind", openID)
 		}
 	}
 	// goroutines: after a grace period for delayed wills (1 s) nothing of the broker may be running
